@@ -39,6 +39,13 @@ CHECKS = {
             "Every sorted index subset of vectors up to length 7 (10 thorough) for all index types used by callers, all small triangle lists x collapse maps, all strips over a "
             "4-symbol alphabet up to length 7 (8), plus random vectors at the 16-bit limits are pushed through the real templates and compared with naive models; out-of-container "
             "accesses abort. Small-scope exhaustive + boundary sizes is the right level for pure index arithmetic.", "3/C18"),
+    "C19": ("exploration", "bounded-exhaustive + random differential testing of the real clean-up (through every texture slot kind of API-built models) against a regex-free reference model and statement-derived postconditions",
+            "All token sequences up to length 4 (5) over separators, whitespace, dots, letters, ':' and the words textures/data, curated real-world paths and random byte strings up to "
+            "4.5 KB are injected into texture-set, effect-shader and NiSourceTexture slots of OB/FO3/SK/SSE/FO4/FO76 models and read back after TrimTexturePaths (twice) and after "
+            "save+Load with and without the terrain option.", "3/C19"),
+    "C20": ("exploration", "randomised runtime checking of algebraic identities with explicit magnitude-scaled tolerances, under ASan/UBSan",
+            "Transforms, rotation vectors, matrices and point sets are drawn from the well-conditioned ranges the statement names (plus degenerate point sets) and the library's results "
+            "are checked against the algebraic laws; shape bounds are checked on API-built shapes of every geometry class.", "3/C20"),
 }
 
 NOT_YET = {}
